@@ -35,7 +35,7 @@ func pairedFieldsFor(p *an.Prog) []string {
 	skip := map[string]bool{"Runtime.scope": true, "Runtime.escapeeWriter": true, "escapeeWriter.set": true}
 	found := map[string]bool{}
 	eval := p.Eval()
-	for _, f := range p.Fns {
+	for _, f := range p.Units() {
 		if f.Pkg != p.Jet || f.Body == nil || !eval[f] {
 			continue
 		}
